@@ -21,9 +21,34 @@ PROPS = {
     },
 }
 
+PROPS["C17"] = {
+    "extract": ["webp_codec"],
+    "rule": "cases = (value -> put -> parse) for every webm_int! type: all 256 u8/i8 and all 65 536 u16/i16 values, boundary + all-bytes-distinct + random for 32/64-bit; "
+            "(bytes -> parse -> put) for ints, U24 and OneBasedU24; for each chunk (VP8X, ANIM, ANMF, ALPH, chunk header): every value of the first and last byte, every single non-zero byte, "
+            "random payloads (3/4 masked to be valid), the VP8X canvas-area boundary, trailing bytes, and every shorter-than-ENCODED_LEN buffer. "
+            "non-trivial = the payload parsed (tag ok) or was rejected for a payload reason (tag rejected) or is a primitive round trip; trivial = too-short buffers (tag short)",
+    "trivial_tags": ["short", "Vp8xChunk", "AnimChunk", "AnmfChunk", "AlphChunk", "ChunkHeader"],
+    "exhaustive": {"quick": True, "thorough": True},
+    "explanation": "exhaustive refers to the 8- and 16-bit integer primitives and to the first/last byte of every chunk; wider fields are covered by the schema-generic theorems plus boundary/random cases",
+    "trusted_base": [
+        "extract.py `webp_codec`: anchors on webm_int!, U24/OneBasedU24/WebmFlags/Reserved impls, bitflags! blocks, the four chunk structs' parse/put_buf bodies and ENCODED_LEN, ChunkHeader",
+        "bytes::Buf getters/putters: `get_uN_le`/`put_uN_le` little-endian, `get_uN`/`put_uN` big-endian, get_uint(_le)/put_uint(_le); bitflags::from_bits rejects unknown bits",
+        "MediaSan/Spec/WebpLayout.lean: hand-written byte layouts from the WebP container specification (the little-endian oracle)",
+    ],
+    "assumptions": COMMON_ASSUME + [
+        "signed integers are compared through their two's-complement bit patterns",
+        "buffers handed to chunk parsers hold at least ENCODED_LEN bytes (what ChunkReader::parse_data guarantees); shorter buffers are only compared model-vs-code, not judged",
+    ],
+}
+
 NOT_APPLICABLE = {}
 
 MANIFEST_TEXT = {
+    "C17": {
+        "text": "Schema-generic Lean theorems (parse∘put = id on well-formed values, put∘parse = id on the success domain, no panic with >= ENCODED_LEN bytes, reserved-byte violations are InvalidInput) instantiated at chunk schemas regenerated from webpsan/src/parse/*.rs on every run; table obligations (by decide) that every integer getter/putter pair agrees and is little-endian, that put_buf writes fields in parse order, and that declared ENCODED_LEN is the field sum. Correspondence through the public webpsan::parse API, exhaustive for 8/16-bit primitives, judged against a hand-written little-endian layout oracle.",
+        "note": "Trusted: Lean kernel; propext, Quot.sound (Classical.choice where simp uses it); the extraction anchors; semantics of bytes::Buf/BufMut method names and bitflags::from_bits; the hand-written layout oracle; harness + driver.",
+        "technique": "Lean 4 proof over extracted codec schemas (generic round-trip lemmas + decide on the tables); differential check via public parse API",
+    },
     "C20": {
         "text": "Width-generic Lean theorem (C20_exact / C20_some_iff / C20_none_iff) about the function body regenerated from common/src/util.rs on every run: the result is the mathematical sum when representable in n bits and None otherwise, for every n; the six macro instances are checked to pair same-width unsigned/signed types. Correspondence: all 65 536 (u8,i8) pairs plus lattice/random pairs for every wider instance run on the real crate and are compared with the model and with integer arithmetic.",
         "note": "Trusted: Lean kernel; propext, Quot.sound; the mini Rust-expression translator in extract/rustexpr.py and the meaning given to overflowing_add/as/</^ in MediaSan/Rust.lean; harness + driver for the differential part.",
